@@ -58,6 +58,11 @@ def gen_element(ch: Choices, tok: str, id_: Any, notification: bool, exotic: boo
         ], 'el.nobind')
         if not el['params'] and ch.draw(2, 'el.noparams'):
             del el['params']
+        if ch.flag(1, 4, 'el.nobind.kwonly'):
+            # keyword-only parameters given by position: as many values as the method has parameters, but they do not bind
+            el = {'jsonrpc': '2.0', 'method': 'kwonly',
+                  'params': ch.choice([[tok, True], [tok, True, 2], [tok, 5], {'tok': tok, 'flag': True, 'zzz': 1}],
+                                      'el.nobind.kwonly.params')}
     elif kind == 'internal':
         el = {'jsonrpc': '2.0', 'method': 'explode', 'params': [tok]}
     elif kind == 'novalidate':
